@@ -1049,4 +1049,77 @@ theorem rule_split (E : Env) (k : OK ρ) (n : Nat) (sep r : ρ) (s : St) (pos : 
   generalize loopN _ _ n L0 s = X at hk2 ⊢
   cases hc : Op.splitLoop k sep r s.textEnd n s pos pos <;> rcases X with e | (⟨L', s'⟩ | ⟨L', s'⟩ | x) <;> simp_all
 
+/-! #### RULE_REPLACE / RULE_MATCHTIME (one case in peg.c) -/
+
+/-- operands: rule[1] = sub-rule, rule[2] = constant, rule[3] = tag, rule[0] = opcode -/
+def opsRepl (r : ρ) (v : Val) (tag op : Nat) : Operands ρ := ⟨opsRule [(1, r)], opsWord [(0, op), (3, tag)], fun _ => v⟩
+
+theorem down1_depth {s s0 : St} (h : down1 s = .ok s0) : s0.depth + 1 = s.depth := by
+  unfold down1 at h
+  split at h
+  · cases h
+  · cases h; simp only; omega
+
+/-- RULE_REPLACE: mode NORMAL around the sub-pattern and restored before every return; the value is computed from the constant
+    (`VE.replaceOf`: the switch on `janet_type(constant)`, recognised as one idiom by the translator) in the state after the
+    sub-pattern; the captures above the saved height are dropped, the value is pushed.  `KeepsDepth`: peg.c reads `s->depth`
+    for the C-stack charge after the sub-rule returned, the model uses the depth on entry. -/
+theorem rule_replace (E : Env) (k : OK ρ) (hk : KeepsDepth k) (n : Nat) (r : ρ) (v : Val) (tag : Nat) (s : St) (pos : Nat) :
+    run E k (opsRepl r v tag Gen.Peg.RULE_REPLACE) Gen.PegSkel.RULE_REPLACE s pos = Op.step E k n (.replace r v tag) s pos := by
+  skel_unfold Gen.PegSkel.RULE_REPLACE
+  simp only [opsRepl]
+  cases hd : down1 { s with acc := false } with
+  | error e => skel_simp
+  | ok s0 =>
+    skel_simp
+    cases hkr : k r s0 pos with
+    | error e => skel_simp
+    | ok x =>
+      obtain ⟨res, s1⟩ := x
+      have hdep : (up1 s1).depth = s.depth := by
+        have h1 := hk r s0 pos res s1 hkr
+        have h2 := down1_depth hd
+        simp only [up1] at *; omega
+      cases res with
+      | none => skel_simp
+      | some p =>
+        skel_simp
+        cases hcg : callGuard E s.depth v with
+        | error e => simp
+        | ok u =>
+          simp only
+          generalize Op.replaceValue v _ (capSave s) = RV
+          cases RV with
+          | error e => simp
+          | ok cap => simp [upd, Gen.Peg.RULE_REPLACE]
+
+theorem rule_matchtime (E : Env) (k : OK ρ) (hk : KeepsDepth k) (n : Nat) (r : ρ) (v : Val) (tag : Nat) (s : St) (pos : Nat) :
+    run E k (opsRepl r v tag Gen.Peg.RULE_MATCHTIME) Gen.PegSkel.RULE_MATCHTIME s pos = Op.step E k n (.matchtime r v tag) s pos := by
+  skel_unfold Gen.PegSkel.RULE_MATCHTIME
+  simp only [opsRepl]
+  cases hd : down1 { s with acc := false } with
+  | error e => skel_simp
+  | ok s0 =>
+    skel_simp
+    cases hkr : k r s0 pos with
+    | error e => skel_simp
+    | ok x =>
+      obtain ⟨res, s1⟩ := x
+      have hdep : (up1 s1).depth = s.depth := by
+        have h1 := hk r s0 pos res s1 hkr
+        have h2 := down1_depth hd
+        simp only [up1] at *; omega
+      cases res with
+      | none => skel_simp
+      | some p =>
+        skel_simp
+        cases hcg : callGuard E s.depth v with
+        | error e => simp
+        | ok u =>
+          simp only
+          generalize Op.replaceValue v _ (capSave s) = RV
+          cases RV with
+          | error e => simp
+          | ok cap => by_cases ht : truthy cap = true <;> simp [upd, ht, Gen.Peg.RULE_MATCHTIME]
+
 end JanetModel.Peg.TieSkel
